@@ -100,6 +100,7 @@ class TimeTriggerDecorator(TriggerDecorator):
             await self.dispatch(DispatchData({"trigger_type": "time", "trigger_time": "startup"}))
 
         first_run = True
+        time_next = None
         try:
             while self.dm.status is DecoratorManagerStatus.RUNNING:
                 if first_run:
@@ -107,6 +108,9 @@ class TimeTriggerDecorator(TriggerDecorator):
                     first_run = False
                 else:
                     now = dt_now()
+                    if time_next is not None and now < time_next:
+                        # woken up within the tolerance before time_next: don't find it again
+                        now = time_next
 
                 _LOGGER.debug("time_trigger now %s", now)
                 time_next, time_next_adj = await trigger.TrigTime.timer_trigger_next(
